@@ -9,7 +9,7 @@ TECH = "deterministic simulation with fault injection (seeded scheduler over rea
 
 CLAIMED = {
     "C01": dict(level="exploration", ref="DESIGN.md §3 C01",
-        text="Seeded search: conforming multi-link streams from the upstream model x five check modes x options x file/pipe x schedule policies x capacity caps x benign I/O faults; oracle: zero errors, no ERROR line, exit 0, statistics/report totals 0. Sampling, not proof: the grammar is unbounded. Command lines also carry -v 0..4 and custom-check files that conforming data satisfies. Shapes added: 13-24 links, pages filled to exactly 507/508/509 words, a full 8 KiB page and the 10000-byte limit. Every scenario also reports a bounded data queue requested with more than 2^20 slots (allocation size chosen by the program).",
+        text="Seeded search: conforming multi-link streams from the upstream model x five check modes x options x file/pipe x schedule policies x capacity caps x benign I/O faults; oracle: zero errors, no ERROR line, exit 0, statistics/report totals 0. Sampling, not proof: the grammar is unbounded. Command lines also carry -v 0..4 and custom-check files that conforming data satisfies. Shapes added: 13-24 links, pages filled to exactly 507/508/509 words, a full 8 KiB page and the 10000-byte limit, two FEE IDs on one link number stored one after the other. Every scenario also reports a bounded data queue requested with more than 2^20 slots (allocation size chosen by the program).",
         note="Trusts the generator's reading of 'conforming' (DESIGN.md appendix A) and the scheduler granularity (switches at channel ops/spawn/join/exit)."),
     "C04": dict(level="exploration", ref="DESIGN.md §3 C04",
         text="Seeded search over random bytes, byte-corrupted framed streams and conforming streams with 1-4 structure-aware corruption faults x all modes/options x file/pipe x schedules x read faults (short, EINTR, EIO); oracle: no panic in any managed thread, no deadlock, step budget, wall-clock limit, no fatal signal, exit status in {0,1,N}. Hangs are deterministic deadlock reports under the scheduler. The thorough tier runs the scenario twice: 150000 cases with simulator + code under test built with AddressSanitizer (memory errors abort the simulated process), then 600000 cases with the plain build. Workload additions: the repository's sample files with byte corruption, a no-command mode, many batches with a capped reader queue, an ignored -o, clock jumps.",
@@ -24,7 +24,7 @@ CLAIMED = {
         text="Well-framed arbitrary streams x filter kind x EVERY distinct value present (+1 absent) x file/stdout destination x file/pipe source under schedules, capped reader->writer queue, short reads/writes, EINTR; oracle: byte-exact concatenation of the walker's matching packets, partition over all values, each output well framed, idempotence, Filter Stats count. Also: destination and statistics files left by an earlier run (stale content must be replaced), the repository's sample files, clock jumps, and one run with more selected packets than the writer buffers (1 Mi) through the repeating pipe seam; a custom end-of-run expectation that fails (report and exit status change, the bytes do not); a destination FILE whose name is the word stdout.",
         note="Trusts the independent chain walker; an empty input is expected to exit non-zero."),
     "C14": dict(level="exploration", ref="DESIGN.md §3 C14",
-        text="Arbitrary / word-payload / conforming well-framed streams x checks, views, filtered writing x filters x JSON/TOML x file/pipe x schedules x benign I/O faults; every statistic the statement lists is recomputed by the independent chain walker (incl. all 20 trigger-bit counters, HBFs, layer/staves over analysed packets) and compared with the statistics file and the report rows. Also: stave-mode streams with ALPIDE frame errors (sub-codes on continuation lines), the repository's sample files, stale statistics files, and two streams beyond 4 GiB of payload per quick run (repeating pipe seam); check runs with end-of-run expectations from a custom checks file, whose [E9001]/[E9002] messages count in totals and codes.",
+        text="Arbitrary / word-payload / conforming well-framed streams x checks, views, filtered writing x filters x JSON/TOML x file/pipe x schedules x benign I/O faults; every statistic the statement lists is recomputed by the independent chain walker (incl. all 20 trigger-bit counters, HBFs, layer/staves over analysed packets) and compared with the statistics file and the report rows. Also: stave-mode streams with ALPIDE frame errors (sub-codes on continuation lines), the repository's sample files, stale statistics files, and two streams beyond 4 GiB of payload per quick run (repeating pipe seam); check runs with end-of-run expectations from a custom checks file, whose [E9001]/[E9002] messages count in totals and codes; the `FEE IDs seen` row of the report (listed + `K more` == all; 1 stream in 25 has 50-350 FEE IDs).",
         note="Links are compared as a set (views do not sort the list); unique error codes only when the run finalises its statistics."),
     "C17": dict(level="exploration", ref="DESIGN.md §3 C17",
         text="Stop conditions placed inside active work: stop event injected at step 1 / last / uniformly drawn decision steps; stdout failing (EPIPE/ENOSPC) after 0 / len-1 / uniform N bytes in views, filtered data, statistics and report; error cap; mid-stream fatal framing error; crossed with random/PCT/starvation schedules and queue capacities capped to 1..8 (full queues). Oracle: no panic, no deadlock, all managed threads finished within the step budget, exit status allowed, partial -o file = whole packets and a prefix of the expected data. Bounded reaction measured in the program's own actions: input bytes read after the stop flag was raised (by the injected event or by the program) <= one batch + read-ahead; a view's failed write must be noticed (fatal reported or stop flag raised). Workloads: many batches with the reader queue capped to 1..2, an ignored -o next to checks, an error storm below the cap, input ending inside a packet while filtered data is written. The work left at the stop event is bounded by configuration: no data queue holds more undelivered packets than the largest configured capacity. 1 case in 13 runs on an input that NEVER ends (the pipe seam delivers the stream over and over) where the stop condition - unknown system ID in the first packet, stop event at a drawn step or at a drawn input byte (reaches a reader skipping between two decision steps), error cap, stdout going away - is the only way out: under a fair seeded schedule with queues capped to 1..4 the run must end within 150000 decision steps.",
@@ -36,7 +36,7 @@ CLAIMED = {
         text="Well-framed streams whose slot size matches the header's data format (random ITS words with arbitrary headers; conforming streams with layout-preserving corruption) x five check modes x filters x -m/statistics file x file/pipe x schedules; every message's leading offset, 10-byte dump, `current :` RDH row and quoted frame end is compared with the input through the independent walker/decoder. Also the repository's sample files with bits flipped inside payload words; 0xFF filler bytes in data format 0.",
         note="One known finding (layout recognised from payload bytes 10..15 instead of the RDH data format) is listed in known_findings.json by its own site; any other byte-dump/offset mismatch still fails the check."),
     "C12": dict(level="exploration", ref="DESIGN.md §3 C12",
-        text="(1) word table of the readout-frame views == independent word table for 0..700 words, both formats, padding 0..15, all size residues; (2) planted invalid-ID words in conforming streams reported exactly at their offsets; (3) excess-padding fault mid-continuation / before a stop page: one payload error at the RDH, nothing inside the payload, next packet judged from the initial state (no further error / DDW0 judged as IHW). Both data formats for the excess-padding fault, a second faulty payload on the same link, unknown ID 0xFF and 0xFF filler bytes in the word tables; planted words behind an RDH that is itself faulty in a field that changes nothing about the packet (header size, priority bit, reserved bits).",
+        text="(1) word table of the readout-frame views == independent word table for 0..700 words, both formats, padding 0..15, all size residues; (2) planted invalid-ID words in conforming streams reported exactly at their offsets; (3) excess-padding fault mid-continuation / before a stop page: one payload error at the RDH, nothing inside the payload, next packet judged from the initial state (no further error / DDW0 judged as IHW). Both data formats for the excess-padding fault, a second faulty payload on the same link, unknown ID 0xFF and 0xFF filler bytes in the word tables; planted words behind an RDH that is itself faulty in a field that changes nothing about the packet (header size, priority bit, reserved bits); second words beginning with exactly five zero bytes.",
         note="The chunking itself is a pure function: its sweep is workload randomisation inside the simulator; the fault-and-recovery half is the simulation-specific part."),
     "C16": dict(level="exploration", ref="DESIGN.md §3 C16",
         text="Input classes (clean, k errors, mid-stream fatal framing error, non-ALICE, missing file, empty) x check modes x -E n x display options (-m, -w code lists incl. prefixes of other codes, -e N), each run under its own schedule; invalid option combinations through the real clap parser + validate_args. Oracle: exit-status table; Total Errors (report) == total_errors (file) == messages shown; -m/-w change only the display; -e N shows at most N; rejected command lines write nothing. Also: the fatal and the failed-custom-check classes through views and filtered writing, -w together with -e, custom-check-only failures under -w 9001/9002, the whole statistics file compared between plain and -m runs, -g and odd-case stats-file extensions among the rejected command lines; where the independent chain walk arrives at an out-of-range offset-to-next the fatal must be reported in every mode, also when the reader meets that RDH while skipping for a filter; failing run expectations on top of data errors (caps and code filters apply to all messages together); the simulator runs the real init_config() (guarded process-arguments hook) in its own observed current directory.",
@@ -45,25 +45,25 @@ CLAIMED = {
         text="Arbitrary-header streams with random ITS words (all flag combinations) and conforming streams x three views x filters x file/pipe x schedules x short writes; rows parsed back: offsets, raw bytes, decoded attributes against a reference decoding from the documented bit layouts; styled == unstyled content; conforming data shows no error. Also: payloads up to 9900 bytes, unknown ID 0xFF, the repository's sample files with flipped word bits.",
         note="Trigger-kind priorities (SOC > SOT > HB > PhT; TDH: SOC > Internal > PhT) are taken as documented behaviour pinned by the repository's view tests."),
     "C09": dict(level="exploration", ref="DESIGN.md §3 C09",
-        text="Seeded walks (20-600 words, illegal-word injection at 0/5/15/40 %) over the ITS word alphabet through the real ItsPayloadFsmContinuous::advance and CdpRunningValidator::check in-process; step-by-step refinement against the diagram model transcribed from the .puml: classification and successor for legal words, documented error family at the word for illegal ones. Coverage = distinct (implementation state, diagram state, word kind) tuples out of 56, reported by the check. The validator half draws varied RDH fields per packet and repeats earlier words byte for byte (state leaking through equality), goes through the real do_payload_checks (payload cutting included) and has payload-error resets between packets. After a wrong-ID word in a single-successor state the diagram's successor (by the unguarded edge; after_TDH by the word's no_data bit) is demanded.",
+        text="Seeded walks (20-600 words, illegal-word injection at 0/5/15/40 %) over the ITS word alphabet through the real ItsPayloadFsmContinuous::advance and CdpRunningValidator::check in-process; step-by-step refinement against the diagram model transcribed from the .puml: classification and successor for legal words, documented error family at the word for illegal ones. Coverage = distinct (implementation state, diagram state, word kind) tuples out of 56, reported by the check. The validator half draws varied RDH fields per packet and repeats earlier words byte for byte (state leaking through equality), goes through the real do_payload_checks (payload cutting included) and has payload-error resets between packets. After a wrong-ID word in a single-successor state the diagram's successor (by the unguarded edge; after_TDH by the word's no_data bit) is demanded. Packets of the walk change their data format (0 / 2).",
         note="No scheduler dimension (sequential FSM owned by one thread); uses the guarded verif_state_id accessor. Exhaustive enumeration of the product would be model checking and is deliberately not the deciding step."),
     "C10": dict(level="exploration", ref="DESIGN.md §3 C10",
         text="Per-link RDH-only histories starting at an HBF start, with bit flips over the header, boundary values, page/stop/orbit/trigger/FEE walks and packet loss/duplication/reordering, merged over 1-8 links and run through the whole pipeline under schedules in check sanity / check all x none / its. Exact two-sided oracle: [E10] iff the documented sanity predicate fails, [E11] iff the documented running automaton flags, each at the RDH's offset; nothing else reported. Also: sanity faults (one or two at once) on the FIRST RDH of a link; a fifth of the cases pins rdh_version through a custom-checks file, which must leave every other rule untouched; a fifth of the injected deviations are doubled on the same RDH (rules must not hide behind one another).",
         note="Reference predicate / automaton in itsgen::models are written from doc/checks_list.md with the tie-breaks of DESIGN.md §2.4 (detector-field bits 4..11 legal, BC 0xdeb legal)."),
     "C02": dict(level="exploration", ref="DESIGN.md §3 C02, appendix B",
-        text="Conforming multi-link streams + ONE entry of the stream-fault catalogue (59 entries: RDH sanity fields, packet loss/duplication/reordering, page/stop/orbit/trigger/FEE edits, status- and data-word IDs and reserved bits, state-dependent ITS rules, CDW index, lanes, excess padding, stave-level frames) at a seeded applicable position, run in all check modes under seeded schedules. One-sided oracle: >=1 message of the documented family at the offending RDH/word in every mode where the rule is active, exit status == -E value; purely stateful violations silent in check sanity. 59 catalogue entries: the TDH sanity faults also on continuation and choice-state TDHs, ID 0xFF on last words, excess padding in both data formats. Half of the stave-mode cases run once more with the stave filter of the faulty link and a trigger period configured.",
+        text="Conforming multi-link streams + ONE entry of the stream-fault catalogue (59 entries: RDH sanity fields, packet loss/duplication/reordering, page/stop/orbit/trigger/FEE edits, status- and data-word IDs and reserved bits, state-dependent ITS rules, CDW index, lanes, excess padding, stave-level frames) at a seeded applicable position, run in all check modes under seeded schedules. One-sided oracle: >=1 message of the documented family at the offending RDH/word in every mode where the rule is active, exit status == -E value; purely stateful violations silent in check sanity. 59 catalogue entries: the TDH sanity faults also on continuation and choice-state TDHs, ID 0xFF on last words, excess padding in both data formats. Half of the stave-mode cases run once more with the stave filter of the faulty link and a trigger period configured; the FEE-ID fault may pick another link's FEE ID, on two links in lockstep.",
         note="The catalogue's code/offset/mode table is DESIGN.md appendix B (doc/checks_list.md + README); cascading extra errors are allowed."),
     "C06": dict(level="exploration", ref="DESIGN.md §3 C06",
         text="Multi-link streams (conforming or with faults confined to single links): reference full run vs another merge of the same per-link sequences, the physically extracted single-link stream, a filter run, ONE single-threaded pass of the link through one real LinkValidator::run, and the stream with an extra fault on another link; messages normalised to (packet index in link, offset in packet) by the independent walker; per-link lists must be equal. Also: header-identity faults on a link's first packet, staves of one layer differing in one bit, two FEE IDs on one link, multi-link sample files; a filter run must report nothing for a link none of whose packets match; link numbers from the whole 8-bit range; one case with 257-300 staves; a link filter on a link number shared by several FEE IDs; system IDs no detector has on later packets of a link (a system-ID fatal is only legitimate for the first packet of the input).",
         note="Grouping by link (by FEE ID in stave mode); each FEE ID is carried by one link in the generated streams."),
     "C13": dict(level="exploration", ref="DESIGN.md §3 C13",
-        text="Frames from the independent ALPIDE encoder (legal and with exactly one broken rule: lanes missing/extra/wrong group, chip or lane bunch counter, inner chip ID, chip count on inner lanes, duplicate chip, lane without chip, empty frame; optional lane announcing fatal) with seeded lane-word interleaving and continuation splits, generated twice with different pixel-hit content; exact per-frame verdict (E72/E73/E74/E75/E701 + E900x) at the frame start against the reference model, readout-flag counters against the chips' trailer flags. Half of the second variants run muted (-m) with the verdicts read from the statistics file; fatal-lane announcements fall within the first frames of a plan: one, two or three lanes in the same frame, in half of the cases another lane a frame or two later.",
+        text="Frames from the independent ALPIDE encoder (legal and with exactly one broken rule: lanes missing/extra/wrong group, chip or lane bunch counter, inner chip ID, chip count on inner lanes, duplicate chip, lane without chip, empty frame; optional lane announcing fatal) with seeded lane-word interleaving and continuation splits, generated twice with different pixel-hit content; exact per-frame verdict (E72/E73/E74/E75/E701 + E900x) at the frame start against the reference model, readout-flag counters against the chips' trailer flags. Half of the second variants run muted (-m) with the verdicts read from the statistics file; fatal-lane announcements fall within the first frames of a plan: one, two or three lanes in the same frame, in half of the cases another lane a frame or two later; bunch-counter byte 0x00 in 1 frame of 6, lanes that go on sending whole words of padding.",
         note="The frame in which a lane announces a fatal state is not judged (documentation does not say whether the announcing lane still counts)."),
     "C15": dict(level="fault_enumeration", ref="DESIGN.md §3 C15",
         text="History of runs: A writes the statistics file, B (other schedule seed, capacity cap, benign I/O faults) must accept it; then EVERY leaf of the stored file that the run also collects is perturbed one at a time (complete enumeration per file in 2 of 3 cases) and the input is changed by one packet: B must report the mismatch and exit with the -E status. All check modes, JSON/TOML, -m on/off, conforming and corrupted inputs. Also through views (1 in 6), with filters and a first link of another detector system, frame errors on two staves, a long stale statistics file at the output path, failing run expectations (custom checks file) whose messages and codes must round-trip, and a closed stdout (EPIPE) during every fifth drift run; every fourth perturbed leaf gets a value that does not fit its field (-1, 2^32, 256, an unknown system name).",
         note="One known finding (round trip after a mid-stream fatal input error depends on scheduling) is listed in known_findings.json under its own site."),
     "C20": dict(level="exploration", ref="DESIGN.md §3 C20",
-        text="Custom-check files (all subsets of cdps/triggers_pht/rdh_version with values equal to, below and above the truth; absent/commented keys; all-default file vs no file; OB chip count/orders on planned frames) and trigger period P vs internal-trigger TDH sequences generated at P' with jitter and wrap-around: [E9001]/[E9002]/[E10]/[E9004]/[E9005]/[E45] iff configured != observed, nothing else, exit status accordingly; under seeded schedules. Trigger-period workloads include frames split over two pages and configured periods of a whole orbit and more.",
+        text="Custom-check files (all subsets of cdps/triggers_pht/rdh_version with values equal to, below and above the truth; absent/commented keys; all-default file vs no file; OB chip count/orders on planned frames) and trigger period P vs internal-trigger TDH sequences generated at P' with jitter and wrap-around: [E9001]/[E9002]/[E10]/[E9004]/[E9005]/[E45] iff configured != observed, nothing else, exit status accordingly; under seeded schedules. Trigger-period workloads include frames split over two pages and configured periods of a whole orbit and more, and period 0.",
         note="Ground truth from the generator and the independent walker; E45 model: BC distance mod 3564 to the previous internal-trigger TDH of the stave."),
 }
 
